@@ -321,13 +321,15 @@ ck.declare('P5_weighted_path_is_a_cheapest_directed_walk', f'find_weighted_path(
 
 
 def wpath_case(case):
-    es, dirs = case
+    es, dirs = case[0], case[1]
+    NW = case[2] if len(case) > 2 else 3
+    wvals = case[3] if len(case) > 3 else WVALS
     st = ex.new_state()
-    G = Graph(st, 3, es, concrete=True)
+    G = Graph(st, NW, es, concrete=True)
     ws = [z3.FP(f'w{j}', z3.Float64()) for j in range(len(es))]
     for j, w_ in enumerate(ws):
-        st.assume(z3.Or([w_ == z3.FPVal(x, z3.Float64()) for x in WVALS]))
-        rec_ = G.vals[3 + j].fields['f']
+        st.assume(z3.Or([w_ == z3.FPVal(x, z3.Float64()) for x in wvals]))
+        rec_ = G.vals[NW + j].fields['f']
         rec_.keys.append(Str(text='weight'))
         rec_.vals.append(tv_float(w_))
     G.add_lists(st, dirs)
@@ -365,8 +367,8 @@ def wpath_case(case):
         cs = []
         if rv.variant == 'Err':
             e = rv.fields[('Err', 0)]
-            for s_ in range(3):
-                for t_ in range(3):
+            for s_ in range(NW):
+                for t_ in range(NW):
                     here = z3.And(a1 == G.nid[s_], a2 == G.nid[t_])
                     cs.append(z3.Implies(here, z3.BoolVal(e.variant == 'PathNotFound' and s_ != t_ and not walks(s_, t_))))
             ck.require(ex, 'P5_weighted_path_is_a_cheapest_directed_walk', r.pc, None, z3.And(cs), wit, lambda m, w: 'weighted-path-refused')
@@ -390,8 +392,8 @@ def wpath_case(case):
             cs.append(z3.Or(alts) if alts else z3.BoolVal(False))
             acc = z3.fpAdd(z3.RNE(), acc, wsel)
         cs.append(z3.fpEQ(total, acc))
-        for s_ in range(3):
-            for t_ in range(3):
+        for s_ in range(NW):
+            for t_ in range(NW):
                 here = z3.And(a1 == G.nid[s_], a2 == G.nid[t_])
                 if s_ == t_:
                     cs.append(z3.Implies(here, z3.BoolVal(len(edges) == 0)))
@@ -403,6 +405,11 @@ def wpath_case(case):
 
 import functools
 _wcases = [(es, dirs) for es in WGRAPHS for dirs in itertools.product((True, False), repeat=len(es))]
+# four nodes (after seed c18h: an improved node that is not re-queued needs S->A, S->B, B->A, A->T, S->T): weights from a set wide
+# enough for "optimum < competing route < stale priority"
+W4GRAPHS = [[(0, 1), (0, 2), (2, 1), (1, 3), (0, 3)]] + ([[(0, 2), (0, 1), (2, 1), (1, 3), (0, 3)], [(0, 1), (0, 2), (2, 1), (1, 3), (2, 3)]] if T != 'quick' else [])
+_wcases += [(es, (True,) * len(es), 4, [1.0, 4.0, 8.0]) for es in W4GRAPHS]
+ck.bounds['find_weighted_path'] += f'; plus {len(W4GRAPHS)} directed five-edge shapes on 4 nodes with weights in [1, 4, 8]'
 _wfound = ck.parallel([_wcases[i::8] for i in range(8)], lambda chunk: sum(wpath_case(c) for c in chunk), jobs=8 if T != 'quick' else 4)
 if not sum(f or 0 for f in _wfound):
     ck.inconclusive.append('P5 vacuous: find_weighted_path never returned a path')
